@@ -247,7 +247,9 @@ Decode(b, ver, strict) ==
          ELSE [t |-> "CONNACK", session |-> b[i] % 2, code |-> b[i+1]]
     [] name = "PUBLISH" ->
          LET qos == (fl \div 2) % 4  dup == fl \div 8  retain == fl % 2  tp == StrAt(b, i, lim) IN
-         IF qos = 3 THEN Bad("publish.qos3")
+         \* (the implementation's decoder does not look at the QoS bits: a lenient decode yields a PUBLISH with qos = 3,
+         \*  which no handler branch takes)
+         IF strict /\ qos = 3 THEN Bad("publish.qos3")
          ELSE IF strict /\ qos = 0 /\ dup = 1 THEN Bad("publish.dup_qos0")
          ELSE IF ~tp.ok THEN Bad("publish.topic")
          ELSE IF qos > 0 /\ tp.next + 1 >= lim THEN Bad("publish.id")
